@@ -135,83 +135,78 @@ theorem S3_generated_zeroize_covered (i : Nat) (hi : i ∈ owners structDecls) (
   simp only [hz, if_true] at hi'
   exact S3_generated_wiped_by_zeroize i hi' fs hwt
 
-/-! ## S4: non-vacuity -/
+/-! ## S4: non-vacuity
 
-def idxOf (name : String) : Option Nat := (structDecls.find? (·.name == name)).map (·.idx)
+The examples are built *from the generated table* (no struct index, name or field order is written down here), so that a
+behaviour-preserving rearrangement of the declarations in the Rust sources leaves them valid. -/
 
-example : idxOf "Seed" = some 8 ∧ idxOf "LmsPrivateKey" = some 25 ∧ idxOf "LmotsPrivateKey" = some 20 ∧
-    idxOf "LmotsParameter" = some 22 ∧ idxOf "LmsParameter" = some 29 ∧ idxOf "HssPrivateKey" = some 2 := by
+/-- field values of a populated instance of the struct declared as `d`: every raw-secret field holds two non-zero secret
+bytes, every owning field holds a container with a populated value of a struct it owns (a secret-bearing one if there is
+one), every other field holds non-secret bytes -/
+def sampleFields (ds : List StructDecl) (own : List Nat) : Nat → List FieldDecl → List Val
+  | 0, fs => fs.map fun f => if f.rawSecret then .raw true [9, 5] else .raw false [1, 2]
+  | fuel + 1, fs => fs.map fun f =>
+      if f.rawSecret then .raw true [9, 5]
+      else match (f.owns.find? (own.contains ·)).orElse (fun _ => f.owns.head?) with
+        | none => .raw false [1, 2]
+        | some j =>
+          match declAt ds j with
+          | none => .raw false [1, 2]
+          | some d => .many [.struct j (sampleFields ds own fuel d.fields)]
+
+/-- a populated value of every secret-bearing struct of the generated table -/
+def samples : List (Nat × List Val) :=
+  (owners structDecls).filterMap fun i =>
+    (declAt structDecls i).map fun d => (i, sampleFields structDecls (owners structDecls) structDecls.length d.fields)
+
+/-- there are secret-bearing structs, every sample is a well-typed value of its struct and does contain secret bytes -/
+theorem samples_nonvacuous :
+    2 ≤ samples.length ∧
+    samples.all (fun p => WellTyped structDecls (.struct p.1 p.2) && decide (0 < secretsLeft (.struct p.1 p.2))) = true := by
   decide +kernel
 
-/-- a `Seed` value with three non-zero seed bytes: `data` (secret bytes), `phantom` -/
-def seedVal : Val := .struct 8 [.raw true [0x17, 0x2a, 0xff], .raw false []]
-
-def lmotsParamVal : Val :=
-  .struct 22 [.raw false [0, 0, 0, 4], .raw false [8], .raw false [0, 34], .raw false [0], .raw false []]
-
-def lmsParamVal : Val := .struct 29 [.raw false [0, 0, 0, 5], .raw false [5], .raw false []]
-
-/-- an `LmsPrivateKey` value: tree identifier, used-leafs index, seed, (skipped) parameters -/
-def lmsPrivVal : Val :=
-  .struct 25 [.raw false [1, 2, 3, 4], .raw false [0, 0, 0, 7], seedVal, lmotsParamVal, lmsParamVal]
-
-/-- an `LmotsPrivateKey` value with two chain values -/
-def lmotsPrivVal : Val :=
-  .struct 20 [.raw false [1, 2, 3, 4], .raw false [0, 0, 0, 7],
-    .many [.raw true [9, 9], .raw true [0, 5]], lmotsParamVal]
-
-/-- an `HssPrivateKey` value (derives nothing, wiped through its fields): two levels of private keys -/
-def hssPrivVal : Val := .struct 2 [.many [lmsPrivVal, lmsPrivVal], .many [], .many []]
-
-example : WellTyped structDecls seedVal = true ∧ WellTyped structDecls lmsPrivVal = true ∧
-    WellTyped structDecls lmotsPrivVal = true ∧ WellTyped structDecls hssPrivVal = true := by decide +kernel
-
-example : secretsLeft seedVal = 3 ∧ secretsLeft lmsPrivVal = 3 ∧ secretsLeft lmotsPrivVal = 3 ∧
-    secretsLeft hssPrivVal = 6 := by decide +kernel
-
-example : 8 ∈ owners structDecls ∧ 25 ∈ owners structDecls ∧ 20 ∈ owners structDecls ∧
-    2 ∈ owners structDecls := by decide +kernel
-
 /-- the secrets are gone after the drop (S3 applied to concrete values that do contain secret bytes) -/
-example : secretsLeft (dropVal structDecls seedVal) = 0 ∧ secretsLeft (dropVal structDecls lmsPrivVal) = 0 ∧
-    secretsLeft (dropVal structDecls lmotsPrivVal) = 0 ∧ secretsLeft (dropVal structDecls hssPrivVal) = 0 :=
-  ⟨S3_generated_wiped_on_drop_all 8 _ (by decide +kernel), S3_generated_wiped_on_drop_all 25 _ (by decide +kernel),
-   S3_generated_wiped_on_drop_all 20 _ (by decide +kernel), S3_generated_wiped_on_drop_all 2 _ (by decide +kernel)⟩
+theorem samples_wiped_on_drop : ∀ p ∈ samples, 0 < secretsLeft (.struct p.1 p.2) ∧
+    secretsLeft (dropVal structDecls (.struct p.1 p.2)) = 0 := by
+  intro p hp
+  have h := samples_nonvacuous.2
+  rw [List.all_eq_true] at h
+  have hp' := h p hp
+  simp only [Bool.and_eq_true, decide_eq_true_eq] at hp'
+  exact ⟨hp'.2, S3_generated_wiped_on_drop_all p.1 p.2 hp'.1⟩
 
-/-- ... and after an explicit `zeroize()` of the key structs -/
-example : secretsLeft (zeroizeVal structDecls seedVal) = 0 ∧ secretsLeft (zeroizeVal structDecls lmsPrivVal) = 0 ∧
-    secretsLeft (zeroizeVal structDecls lmotsPrivVal) = 0 :=
-  ⟨S3_generated_wiped_by_zeroize 8 (by decide +kernel) _ (by decide +kernel),
-   S3_generated_wiped_by_zeroize 25 (by decide +kernel) _ (by decide +kernel),
-   S3_generated_wiped_by_zeroize 20 (by decide +kernel) _ (by decide +kernel)⟩
+/-- ... and after an explicit `zeroize()` of every sampled struct that `wipedByZeroize` covers; there is at least one -/
+theorem samples_wiped_by_zeroize : ∀ p ∈ samples, wipedByZeroize structDecls (owners structDecls) p.1 = true →
+    secretsLeft (zeroizeVal structDecls (.struct p.1 p.2)) = 0 := by
+  intro p hp hw
+  have h := samples_nonvacuous.2
+  rw [List.all_eq_true] at h
+  have hp' := h p hp
+  simp only [Bool.and_eq_true, decide_eq_true_eq] at hp'
+  exact S3_generated_wiped_by_zeroize p.1 hw p.2 hp'.1
 
-/-- the model computes: `zeroize()` on the `LmsPrivateKey` value clears the non-skipped fields (also the non-secret
-ones) and leaves the skipped parameter fields alone -/
-example : zeroizeVal structDecls lmsPrivVal =
-    .struct 25 [.raw false [0, 0, 0, 0], .raw false [0, 0, 0, 0],
-      .struct 8 [.raw true [0, 0, 0], .raw false []], lmotsParamVal, lmsParamVal] := by rfl
+example : (samples.filter fun p => wipedByZeroize structDecls (owners structDecls) p.1).length ≥ 1 := by decide +kernel
 
-/-- ... and so does `drop`: `ZeroizeOnDrop` runs `zeroize()` first, then the fields are dropped (the inner `Seed` is
-zeroized a second time by its own `ZeroizeOnDrop`; the skipped parameter structs are left as they are) -/
-example : dropVal structDecls lmsPrivVal =
-    .struct 25 [.raw false [0, 0, 0, 0], .raw false [0, 0, 0, 0],
-      .struct 8 [.raw true [0, 0, 0], .raw false []], lmotsParamVal, lmsParamVal] := by
-  have h25 : preDrop structDecls 25 [.raw false [1, 2, 3, 4], .raw false [0, 0, 0, 7], seedVal, lmotsParamVal,
-      lmsParamVal] = [.raw false [0, 0, 0, 0], .raw false [0, 0, 0, 0],
-      .struct 8 [.raw true [0, 0, 0], .raw false []], lmotsParamVal, lmsParamVal] := by rfl
-  have h8 : preDrop structDecls 8 [.raw true [0, 0, 0], .raw false []] =
-      [.raw true [0, 0, 0], .raw false []] := by rfl
-  have h22 : ∀ fs, preDrop structDecls 22 fs = fs := fun _ => rfl
-  have h29 : ∀ fs, preDrop structDecls 29 fs = fs := fun _ => rfl
-  have d22 : dropVal structDecls lmotsParamVal = lmotsParamVal := by
-    simp [lmotsParamVal, dropVal_struct, dropVal_raw, h22]
-  have d29 : dropVal structDecls lmsParamVal = lmsParamVal := by
-    simp [lmsParamVal, dropVal_struct, dropVal_raw, h29]
-  have d8 : dropVal structDecls (.struct 8 [.raw true [0, 0, 0], .raw false []]) =
-      .struct 8 [.raw true [0, 0, 0], .raw false []] := by
-    simp [dropVal_struct, dropVal_raw, h8]
-  rw [lmsPrivVal, dropVal_struct, h25]
-  simp [dropVal_raw, d22, d29, d8]
+/-! ### the model computes (frozen illustration table: a seed wrapper, a parameter struct, a key that skips its parameters) -/
+
+def illu : List StructDecl :=
+  [⟨0, "illu.rs", "Seed", ["Zeroize", "ZeroizeOnDrop"], true, true, [⟨"data", "ArrayVecZeroize<u8, 32>", false, [], true⟩, ⟨"phantom", "PhantomData<H>", false, [], false⟩]⟩,
+   ⟨1, "illu.rs", "Param", [], false, false, [⟨"type_id", "u32", false, [], false⟩]⟩,
+   ⟨2, "illu.rs", "PrivateKey", ["Zeroize", "ZeroizeOnDrop"], true, true,
+     [⟨"id", "[u8; 4]", false, [], false⟩, ⟨"used", "u32", false, [], false⟩, ⟨"seed", "Seed<H>", false, [0], false⟩, ⟨"param", "Param", true, [1], false⟩]⟩]
+
+def illuParam : Val := .struct 1 [.raw false [0, 0, 0, 5]]
+def illuSeed : Val := .struct 0 [.raw true [0x17, 0x2a, 0xff], .raw false []]
+def illuKey : Val := .struct 2 [.raw false [1, 2, 3, 4], .raw false [0, 0, 0, 7], illuSeed, illuParam]
+
+example : WellTyped illu illuKey = true ∧ secretsLeft illuKey = 3 ∧ SecretsCovered illu = true := by decide +kernel
+
+/-- `zeroize()` clears the non-skipped fields (also the non-secret ones) and leaves the skipped parameter field alone -/
+example : zeroizeVal illu illuKey =
+    .struct 2 [.raw false [0, 0, 0, 0], .raw false [0, 0, 0, 0], .struct 0 [.raw true [0, 0, 0], .raw false []], illuParam] := by rfl
+
+example : secretsLeft (dropVal illu illuKey) = 0 :=
+  S1_secretsCovered_sound illu (by decide +kernel) 2 _ (by decide +kernel)
 
 /-! ### bad tables: the side condition fails and a secret survives -/
 
@@ -270,3 +265,6 @@ end Props.C16Sem
 #print axioms Props.C16Sem.S3_generated_wiped_by_zeroize
 #print axioms Props.C16Sem.S3_generated_zeroize_covered
 #print axioms Props.C16Sem.S1_needs_deriveSound
+#print axioms Props.C16Sem.samples_nonvacuous
+#print axioms Props.C16Sem.samples_wiped_on_drop
+#print axioms Props.C16Sem.samples_wiped_by_zeroize
